@@ -12,7 +12,8 @@ inline long long RowLegalizer::getDisplacement(int width, int targetPos,
   int targetAbsPos = targetPos - usedSpace();
   int slope = -width;
 
-  int cur_pos = end_;
+  // The cells already present cannot be further right than this
+  int cur_pos = end_ - usedSpace();
   long long cur_cost = 0;
 
   std::vector<Bound> passed_bounds;
@@ -22,7 +23,7 @@ inline long long RowLegalizer::getDisplacement(int width, int targetPos,
          ((slope < 0 and bounds.top().absolutePos > targetAbsPos) or
           bounds.top().absolutePos > end_ - usedSpace() - width)) {
     int old_pos = cur_pos;
-    cur_pos = bounds.top().absolutePos;
+    cur_pos = std::min(cur_pos, bounds.top().absolutePos);
     cur_cost += static_cast<long long>(old_pos - cur_pos) * (slope + width);
     slope += bounds.top().weight;
 
